@@ -423,6 +423,7 @@ class Engine:
 
     def e_BoolOp(self, e, st):
         is_and = isinstance(e.op, ast.And)
+        guards = set()
 
         def go(i, s):
             res = self.eval(e.values[i], s)
@@ -436,6 +437,8 @@ class Engine:
                 c = simp(self.truthy(v))
                 cont_c, stop_c = (c, z3.Not(c)) if is_and else (z3.Not(c), c)
                 cont_c, stop_c = simp(cont_c), simp(stop_c)
+                guards.add(cont_c.get_id())
+                guards.add(stop_c.get_id())
                 # pure boolean fast path: merge instead of forking when the rest is side-effect free
                 if not z3.is_false(stop_c):
                     s_stop = s1.assume(stop_c)
@@ -448,9 +451,9 @@ class Engine:
             return out
 
         res = go(0, st)
-        return self._merge_bool_results(st, res)
+        return self._merge_bool_results(st, res, guards)
 
-    def _merge_bool_results(self, st0, res):
+    def _merge_bool_results(self, st0, res, guards=None):
         """If all results are BoolV and states differ from st0 only by added path
         conditions, merge them into one BoolV (reduces path explosion)."""
         if len(res) <= 1:
@@ -462,6 +465,11 @@ class Engine:
             if s.vars is not st0.vars and s.vars != st0.vars:
                 return res
             if s.ghost != st0.ghost or s.pc[:n0] != st0.pc:
+                return res
+            if guards is not None and any(c.get_id() not in guards for c in s.pc[n0:]):
+                # a path condition that is not one of this operator's own branch conditions (an assumption
+                # from a callee's contract, an axiom on a fresh symbol): merging would turn it into a guard
+                # that the solver may falsify, so the results are kept as separate paths
                 return res
         t = None
         for s, v in reversed(res):
